@@ -76,6 +76,20 @@ pub fn expr_coordinate(e: &Expression) -> String {
 }
 
 impl<'a> Observer for ValueAudit<'a> {
+    fn undefined(&mut self, e: &Expression) {
+        // A constant is attributed to a node whose evaluation is an error (0 / 0, x % 0, ...).
+        if let Some(claim) = e.meta().value_knowledge().get_reduces_to() {
+            self.claims_checked += 1;
+            if self.first.is_none() {
+                self.first = Some(Mismatch {
+                    coordinate: format!("value/{}/undefined", expr_coordinate(e)),
+                    node: format!("{e:?}"),
+                    claimed: format!("{claim}"),
+                    actual: "no value (the operation is an error for these operands)".to_string(),
+                });
+            }
+        }
+    }
     fn expr(&mut self, e: &Expression, value: &Val) {
         self.check(
             e.meta().value_knowledge().get_reduces_to(),
